@@ -231,6 +231,43 @@ def case_term(case, trace):
             f"   {lst(ops)}\n   {lst(impl)})")
 
 
+def has_nested(case):
+    return any(f.get("nested") for f in case["fns"])
+
+
+def nest_table(case):
+    """the `nest` oracle of RunRe.nest_of: per function the Invokes its body makes,
+    (execution index, (scope, invoked function with ITS signature)), in body order.
+    An entry naming an unknown function is dropped, as the harness drops it."""
+    fns = {f["id"]: f for f in case["fns"]}
+    rows = []
+    for fn in case["fns"]:
+        ent = []
+        for n in fn.get("nested") or []:
+            g = fns.get(n["fn"])
+            if g is None or n["scope"] < 0:
+                continue
+            ent.append(f"({n['exec']}, ({n['scope']}, mkInvokeIn {g['id']} {sig(g)}))")
+        if ent:
+            rows.append(f"({fn['id']}, {lst(ent)})")
+    return lst(rows)
+
+
+def cases_file_re(pairs, extra="", defs=()):
+    """as cases_file, for histories with re-entrant bodies: additionally
+    r<i> : case_re (the case with its nest table) and all_re"""
+    out = [HEADER.format(extra=("RunRe " + extra).strip())]
+    names = []
+    for i, (c, t) in enumerate(pairs):
+        out.append(f"Definition c{i} : case := {case_term(c, t)}.")
+        out.append(f"Definition r{i} : case_re := mkCaseRe c{i} {nest_table(c)}.")
+        names.append(f"{i}")
+    out.append(f"Definition all_cases : list case := {lst(['c' + n for n in names])}.")
+    out.append(f"Definition all_re : list case_re := {lst(['r' + n for n in names])}.")
+    out.extend(defs)
+    return "\n".join(out) + "\n"
+
+
 HEADER = """From Dig Require Import Base Sig State Graph Register Resolve Run {extra}.
 Open Scope nat_scope.
 """
